@@ -289,6 +289,15 @@ def conditional_to_ast(statement):
 
 
 def loop_to_ast_node(statement):
+    if (isinstance(statement, Assign) and statement.loops
+            and statement.condition is not True):
+        # The guard of a statement is checked once, before its loops: if it
+        # does not hold, the loop bounds are not even looked at (they may
+        # refer to variables that are only set if the guard holds).
+        return IfThenElse(statement.condition,
+            loop_to_ast_node(statement.copy(condition=True)),
+            NullASTNode())
+
     if isinstance(statement, Assign) and statement.loops:
         loop_var_name, lower, upper = statement.loops[0]
         new_statement = statement.copy(loops=statement.loops[1:])
